@@ -9,6 +9,15 @@ def units(tier):
     act = lambda: E("vp_main_active", "parallel_for(n), n in 0..3, with a body that counts simultaneously active invocations: the maximum never exceeds the configured thread count", q)
     us = [unit("internal_init", [init()], 1, 0, q, validate=False), unit("serial", [init(), act()], 1, 0, q, internal=False),
           unit("internal_t1", [act()], 1, 0, q), unit("internal_t2", [act()], 2, 0, q), unit("internal_t2_p1", [act()], 2, 1, q)]
+    from runner import PathUnit, PathEntry
+    hist = 3 if q else 5
+    for nm, dfn, libs, contract in [("tbb_init", "RKCOMMON_TASKING_TBB", ["-ltbb"], "tbb::detail::r1::create / destroy / global_control_active_value replaced by the documented contract of global_control (active value = minimum over the live controls of the parameter, library default - an arbitrary positive number - when none is alive)"),
+                                    ("omp_init", "RKCOMMON_TASKING_OMP", ["-fopenmp"], "omp_set_num_threads / omp_get_max_threads replaced by their specification (nthreads-var of the calling task, initially an arbitrary positive default)")]:
+        us.append(PathUnit(nm, "harness/C13_backend_init.cpp", [PathEntry("vp_main_backend_init", wall=600 if q else 3000,
+                  desc="real tasking_system_init.cpp in the %s configuration: numTaskingThreads() is 0 before initialisation, n after initTaskingSystem(n) for every n in 1..1000, positive for n <= 0, and m after each of %d re-initialisations with arbitrary m" % (dfn, hist))],
+                  defines=[dfn, "VP_PATH", "HIST=%d" % hist], native_defines=["VP_NATIVE_BUILD"], native_libs=libs,
+                  assumptions=[contract, "only the reporting half of the property in this configuration: the number of threads the closed library actually uses is outside"],
+                  stubs=[contract]))
     if not q:
         us += [unit("internal_t3", [act()], 3, 0, q), unit("internal_t2_p2", [act()], 2, 2, q), unit("internal_t3_p1", [act()], 3, 1, q)]
     return us
